@@ -843,12 +843,22 @@ func lemmaTypedGettersAgreeOnFound(st *SlimTrie, key string) (bool, bool, bool, 
 //@   loop 1 invariant fresh(res)
 //@   ensures fresh(result0)
 
+// newVLenArray: builds the leaf / value array. Functional contract (C01/C02: a value is read back as the bytes that were
+// stored): nil exactly when every element is empty; otherwise N = len(elts), Bytes is as long as all elements together,
+// and the FIXED-size layout (no position bitmap) is chosen only if every non-empty element has exactly FixedSize bytes.
 //@ func newVLenArray
-//@   property C08
+//@   property C08 C01 C02
 //@   opt kinds=post,frame
-//@   loop 1 invariant fresh(sizes) && fresh(nonEmptyIndexes)
-//@   loop 2 invariant fresh(buf) && vlenArray != nil && fresh(vlenArray) && fresh(sizes) && fresh(nonEmptyIndexes)
+//@   requires len(elts) <= 1000000000
+//@   loop 1 invariant fresh(sizes) && fresh(nonEmptyIndexes) && -1 <= rangeidx && rangeidx < len(elts) && len(sizes) == rangeidx + 1
+//@   loop 1 invariant (prevSize == -1 || prevSize >= 1) && (prevSize == -1 ==> totalSize == 0 && allEqual)
+//@   loop 1 invariant allEqual ==> forall(k, 0, rangeidx + 1, len(elts[k]) == 0 || len(elts[k]) == prevSize)
+//@   loop 1 invariant totalSize >= 0 && (totalSize == 0 ==> forall(k, 0, rangeidx + 1, len(elts[k]) == 0))
+//@   loop 2 invariant fresh(buf) && vlenArray != nil && fresh(vlenArray) && fresh(sizes) && fresh(nonEmptyIndexes) && vlenArray.PositionBM == nil && vlenArray.FixedSize == 0
 //@   ensures result == nil || fresh(result)
+//@   ensures result == nil ==> forall(k, 0, len(elts), len(elts[k]) == 0)
+//@   ensures result != nil ==> int(result.N) == len(elts)
+//@   ensures result != nil && result.PositionBM == nil ==> forall(k, 0, len(elts), len(elts[k]) == 0 || len(elts[k]) == int(result.FixedSize))
 
 //@ func (*creator).buildLeaves
 //@   property C08
